@@ -9,7 +9,7 @@
 From Coq Require Import QArith Reals.
 From Flocq Require Import Core.Core IEEE754.BinarySingleNaN.
 From SC Require Import Base.Prelude Cmp.Cmp Cmp.Logic Cmp.Tolerance Cmp.FloatB64 Cmp.GoTime Cmp.Spec Cmp.LogicProofs Cmp.ToleranceProofs Cmp.FloatB64Proofs
-  Cmp.GoTimeProofs Cmp.CmpProofs Cmp.CmpTableProofs Cmp.SpecSymProofs Cmp.CollEquiv Cmp.CollEquivProofs Cmp.C16Judge Cmp.TreeProofs Cmp.JudgeProofs Cmp.CollJudgeProofs Cmp.MaskJudgeProofs Cmp.CollLossy Cmp.CollLossyProofs
+  Cmp.GoTimeProofs Cmp.CmpProofs Cmp.CmpTableProofs Cmp.SpecSymProofs Cmp.CollEquiv Cmp.CollEquivProofs Cmp.C16Judge Cmp.TreeProofs Cmp.JudgeProofs Cmp.CollJudgeProofs Cmp.MaskJudgeProofs Cmp.MaskCollJudgeProofs Cmp.CollLossy Cmp.CollLossyProofs
   Resource.Impl Resource.Pull Resource.PullProofs.
 Open Scope Z_scope.
 
@@ -200,19 +200,49 @@ Proof. exact duration_reflexive. Qed.
 Theorem C16_duration_symmetric : forall d x y, duration_within d x y = duration_within d y x.
 Proof. exact duration_symmetric. Qed.
 
-(* partial: Durations inside the int64 nanosecond range; beyond it AsDuration saturates and distinct
-   Durations compare equal (known finding, C16_duration_saturation_refuted) *)
-Theorem C16_duration_accepts_iff_within_partial : forall d tx ux fx ty uy fy,
-  0 <= d -> tx = dur_full -> ty = dur_full ->
-  in64 (get_int "seconds" fx * giga) = true -> in64 (total_nanos fx) = true ->
-  in64 (get_int "seconds" fy * giga) = true -> in64 (total_nanos fy) = true ->
+(* full (was _partial): EVERY pair of Durations -- any int64 seconds, any int32 nanos, of either sign, normalised
+   or not, also beyond the +-10000 years of a valid Duration -- and every tolerance a time.Duration can hold:
+   the verdict is |x - y| <= d on the exact totals.  (/repo's DurationValueWithin now works on the seconds and
+   nanos fields; until then it went through AsDuration, which saturates beyond about 292 years.) *)
+Theorem C16_duration_accepts_iff_within : forall d tx ux fx ty uy fy,
+  0 <= d <= max_dur -> tx = dur_full -> ty = dur_full ->
+  in32 (get_int "nanos" fx) = true -> in32 (get_int "nanos" fy) = true ->
   duration_within d (CM tx true fx ux) (CM ty true fy uy) =
   (Z.abs (total_nanos fx - total_nanos fy) <=? d, true).
 Proof. exact duration_accepts_iff_within. Qed.
 
-Theorem C16_duration_saturation_refuted :
-  duration_within 0 (dur_msg 10000000000 0) (dur_msg 20000000000 0) = (true, true).
-Proof. vm_compute. reflexivity. Qed.
+Example C16_duration_accepts_iff_within_nonvacuous :
+  duration_within 1 (dur_msg 315576000000 0) (dur_msg 315575999999 999999999) = (true, true) /\
+  duration_within 1 (dur_msg 315576000000 0) (dur_msg 315575999999 999999998) = (false, true) /\
+  duration_within max_dur (dur_msg 9223372036 854775807) (dur_msg 0 0) = (true, true) /\
+  duration_within max_dur (dur_msg 9223372036 854775808) (dur_msg 0 0) = (false, true) /\
+  duration_within max_dur (dur_msg 9223372041 (-2147483648)) (dur_msg 0 2147483647) = (true, true) /\
+  duration_within max_dur (dur_msg 9223372042 (-2147483648)) (dur_msg 0 2147483647) = (false, true).
+Proof. repeat split; vm_compute; reflexivity. Qed.
+
+(* the model on Z is the code as Go computes it: for int64 seconds and int32 nanos no uint64 / int64 operation
+   of durationsWithin wraps *)
+Theorem C16_duration_kernel_no_wrap : forall d xs xn ys yn,
+  0 <= d <= max_dur -> in64 xs = true -> in64 ys = true -> in32 xn = true -> in32 yn = true ->
+  dur_sn_close_go d xs xn ys yn = dur_sn_close d xs xn ys yn.
+Proof. exact dur_sn_no_wrap. Qed.
+
+(* the kernel before the repair (AsDuration, then the exact distance of the two saturated values): right inside
+   the int64 nanosecond range, refuted beyond it (was known finding coq:2) *)
+Theorem C16_duration_v1_exact_inside_int64_ns : forall d tx ux fx ty uy fy,
+  0 <= d -> tx = dur_full -> ty = dur_full ->
+  in64 (get_int "seconds" fx * giga) = true -> in64 (total_nanos fx) = true ->
+  in64 (get_int "seconds" fy * giga) = true -> in64 (total_nanos fy) = true ->
+  duration_within_v1 d (CM tx true fx ux) (CM ty true fy uy) =
+  (Z.abs (total_nanos fx - total_nanos fy) <=? d, true).
+Proof. exact duration_v1_accepts_iff_within. Qed.
+
+Theorem C16_duration_saturation_v1_refuted :
+  duration_within_v1 0 (dur_msg 10000000000 0) (dur_msg 20000000000 0) = (true, true) /\
+  duration_within 0 (dur_msg 10000000000 0) (dur_msg 20000000000 0) = (false, true) /\
+  duration_within_v1 9223372036000000000 (dur_msg 0 999999999) (dur_msg 10000000000 0) = (true, true) /\
+  duration_within 9223372036000000000 (dur_msg 0 999999999) (dur_msg 10000000000 0) = (false, true).
+Proof. exact duration_saturation_v1_refuted. Qed.
 
 Theorem C16_duration_only_own_kind : forall d x y,
   answers (duration_within d) x y = true ->
@@ -265,14 +295,19 @@ Theorem C16_equal_reflexive : forall e x, ecfg_guard e = true -> has_durp e = fa
 Proof. exact model_reflexive. Qed.
 
 (* ---- the judge is sound with respect to the model ---- *)
-(* whenever the observation is the model's ([agrees]), the guard holds and no known-finding class
-   applies ([in_scope_all]: no DurationValueWithinP, no saturating Duration under DurationValueWithin;
-   pair, Value-stream, one-item-collection and whole-collection cases with distinct ids; not the
-   read-mask cases), the property predicate evaluated on the OBSERVATION holds: symmetric, reflexive,
+(* whenever the observation is the model's ([agrees]), the guard holds and the case is in scope
+   ([in_scope_every], described below), the property predicate evaluated on the OBSERVATION holds: symmetric, reflexive,
    equal to the reference equality with ideal leaves, equal to the real proto.Equal modulo
    change_time, And/Or = fold, delivered iff not ideally equivalent to what the subscriber holds.
    So on in-scope cases a non-zero verdict can only come from the code differing from the model. *)
 Theorem C16_judge_sound : forall c,
+  agrees c = true -> C16_guard c = true -> in_scope_every c = true -> C16_ok c = true.
+Proof. exact judge_sound_every. Qed.
+(* [in_scope_every]: pair (combinator trees included), Value-stream, one-item and whole-collection cases, and the
+   read-mask stream and collection cases (the read-mask filter keeps a value guarded and in scope:
+   MaskCollJudgeProofs.path_filter_tree_ok); every kind but the lossy collection cases KCollL.  The scope: no
+   DurationValueWithinP; int32 nanos in Durations under DurationValueWithin; distinct ids. *)
+Theorem C16_judge_sound_without_masks : forall c,
   agrees c = true -> C16_guard c = true -> in_scope_all c = true -> C16_ok c = true.
 Proof. exact judge_sound_all. Qed.
 
@@ -281,6 +316,26 @@ Theorem C16_judge_sound_masked_stream : forall paths e seed writes emitted,
   let c := KStreamM paths e seed writes emitted in
   agrees_core c = true -> mask_stream_scope paths e seed writes = true -> ok_core c = true.
 Proof. exact mask_stream_sound. Qed.
+
+(* read-mask whole collections (Collection.Pull WithReadPaths, optional WithInclude / WithUpdatesOnly): inclusion
+   is decided on the stored value, the equivalence sees and the subscriber holds filtered values; the hypotheses
+   (guard, scope: [tree_ok]) are on the FILTERED values; distinct ids *)
+Theorem C16_judge_sound_masked_collection : forall paths e uo thr init ops emitted,
+  let c := KCollM paths e uo thr init ops emitted in
+  agrees_core c = true -> mask_coll_scope c = true -> ok_core c = true.
+Proof. exact mask_coll_judge_sound. Qed.
+
+(* "a" = (1, "x") seen through the mask {default_double} and WithInclude(default_double >= 1) under a margin of 1/2:
+   a write that changes only the hidden string is not delivered, 2 is, 1/2 leaves the included set: a REMOVE *)
+Example C16_nonvacuous_masked_collection :
+  let m (d : Q) (s : string) := CM "sc.go.test.TestAllTypes" true
+        [("default_double"%string, CS (CF64 (FFin d))); ("default_string"%string, CS (CStr s))] [] in
+  let v (d : Q) := CM "sc.go.test.TestAllTypes" true [("default_double"%string, CS (CF64 (FFin d)))] [] in
+  let c := KCollM ["default_double"%string] (EAnd [VFloat 0 (1#2)]) false (Some (1#1)) [("a"%string, m (1#1) "x"%string)]
+             [("a"%string, Some (m (1#1) "y"%string)); ("a"%string, Some (m (2#1) "y"%string)); ("a"%string, Some (m (1#2) "y"%string))]
+             [("a"%string, None, Some (v (1#1))); ("a"%string, Some (v (1#1)), Some (v (2#1))); ("a"%string, Some (v (2#1)), None)] in
+  (agrees c && C16_guard c && mask_coll_scope c && in_scope_every c && C16_ok c) = true.
+Proof. vm_compute. reflexivity. Qed.
 
 Theorem C16_judge_sound_comb : forall is_or es x y,
   ok_obs x y (false, false)
@@ -538,13 +593,30 @@ Example C16_nonvacuous_lossy :
              ("b"%string, None); ("b"%string, Some (nv_d 7)); ("zz"%string, Some (nv_mark "barrier-0"))] in
   let em := [("a"%string, None, Some (nv_d 1)); ("b"%string, None, Some (nv_d 5)); ("pp"%string, None, Some (nv_mark "plug-0"));
              ("b"%string, Some (nv_d 5), Some (nv_d 7)); ("zz"%string, None, Some (nv_mark "barrier-0"))] in
-  let c := KG true (KCollL (EAnd [VFloat 0 (1#2)]) false None init [ph] em) in
+  let c := KG true (KCollL (EAnd [VFloat 0 (1#2)]) false None init [ph] em [1; 1; 1; 4; 1]) in
   map Change.ckind (merged_changes init [ph]) = [1; 4; 4; 1] /\
   (agrees c && C16_guard c && C16_ok c) = true /\
+  (* the REPLACE of "b" reported as an UPDATE is not the model's stream *)
+  agrees (KG true (KCollL (EAnd [VFloat 0 (1#2)]) false None init [ph] em [1; 1; 1; 2; 1])) = false /\
   (* the same stream with the REPLACE of "a" delivered as well is rejected by the oracle *)
   C16_ok (KCollL (EAnd [VFloat 0 (1#2)]) false None init [ph]
-            (firstn 3 em ++ [("a"%string, Some (nv_d 1), Some (nv_d (5#4)))] ++ skipn 3 em)) = false.
+            (firstn 3 em ++ [("a"%string, Some (nv_d 1), Some (nv_d (5#4)))] ++ skipn 3 em) [1; 1; 1; 4; 4; 1]) = false.
 Proof. repeat split; vm_compute; reflexivity. Qed.
+
+(* REPLACE as a kind of its own: the loop that carries the ChangeType each change goes out with (the merge stage's
+   ADD / UPDATE / REMOVE / REPLACE, rewritten to ADD / REMOVE where include says the item came into / left the
+   included set) delivers exactly the changes of the held-map model of record, in which a REPLACE is carried as an
+   update -- so every C16_collection_* theorem speaks about the kind-carrying loop too *)
+Theorem C16_collection_lossy_kinds_erase :
+  forall (rmask : Type) (rf : rmask -> cval -> cval) cmp s (ro : ropts cval rmask) evs,
+  map fst (pull_collection_held_k rmask rf cmp s ro evs) = pull_collection_held rf (Some cmp) s ro (map fst evs).
+Proof. exact pull_collection_held_k_erase. Qed.
+Theorem C16_collection_lossy_kinds_model_erase : forall e uo thr init phases,
+  map triple_of (map fst (pull_collection_held_k unit id_filter (model_e e) (coll_state init) (coll_ro uo thr) (merged_events_k init phases)))
+  = coll_lossy_model e uo thr init phases.
+Proof.
+  intros. unfold coll_lossy_model. rewrite pull_collection_held_k_erase, merged_events_k_erase. reflexivity.
+Qed.
 
 (* the hypotheses of C16_judge_sound hold of a non-trivial pair case and of a drifting stream *)
 Example C16_nonvacuous_judge_sound :
@@ -589,15 +661,19 @@ Print Assumptions C16_time_accepts_iff_within.
 Print Assumptions C16_time_only_own_kind.
 Print Assumptions C16_duration_reflexive.
 Print Assumptions C16_duration_symmetric.
-Print Assumptions C16_duration_accepts_iff_within_partial.
-Print Assumptions C16_duration_saturation_refuted.
+Print Assumptions C16_duration_accepts_iff_within.
+Print Assumptions C16_duration_kernel_no_wrap.
+Print Assumptions C16_duration_v1_exact_inside_int64_ns.
+Print Assumptions C16_duration_saturation_v1_refuted.
 Print Assumptions C16_duration_only_own_kind.
 Print Assumptions C16_duration_wrap_v0_refuted.
 Print Assumptions C16_durp_symmetric_refuted.
 Print Assumptions C16_durp_reflexive_refuted.
 Print Assumptions C16_durp_only_own_kind.
 Print Assumptions C16_judge_sound.
+Print Assumptions C16_judge_sound_without_masks.
 Print Assumptions C16_judge_sound_masked_stream.
+Print Assumptions C16_judge_sound_masked_collection.
 Print Assumptions C16_judge_sound_comb.
 Print Assumptions C16_reference_symmetric.
 Print Assumptions C16_reference_reflexive.
@@ -621,6 +697,8 @@ Print Assumptions C16_whole_message_is_ideal.
 Print Assumptions C16_collection_lossy_history_chained.
 Print Assumptions C16_collection_lossy_delivers_iff_not_equivalent_to_held.
 Print Assumptions C16_collection_lossy_seeded.
+Print Assumptions C16_collection_lossy_kinds_erase.
+Print Assumptions C16_collection_lossy_kinds_model_erase.
 Print Assumptions C16_tree_verdict.
 Print Assumptions C16_tree_answers_iff_some_leaf_applies.
 Print Assumptions C16_and_tree_is_conj_of_applicable_leaves.
